@@ -1,0 +1,38 @@
+//go:build verif
+
+package core
+
+// Contracts for the deductive verifier in /verif (govc). This file holds comments only; it is
+// compiled solely with -tags verif and declares nothing.
+
+// ---------------------------------------------------------------------------------------------
+// Target patterns (C20, C33, C36)
+//
+//@ spec under(lp string, p string) bool = lp == "" || p == lp || hasPrefix(p, lp + "/")
+//@ spec selects(l BuildLabel, t BuildLabel) bool = ite(l.Name == "...", under(l.PackageName, t.PackageName), \
+//@      t.PackageName == l.PackageName && (l.Name == "all" || t.Name == l.Name))
+//
+//@ func (BuildLabel).Includes
+//@   modifies nothing
+//@   ensures selects [C20 C33 C36]: result == selects(label, that)
+//@   ensures sibling [C20]: label.Name == "..." && label.PackageName != "" && that.PackageName != label.PackageName && \
+//@      !hasPrefix(that.PackageName, label.PackageName + "/") ==> !result
+
+// ---------------------------------------------------------------------------------------------
+// Coverage merging (C27)
+//
+//@ func MergeCoverageLines
+//@   modifies nothing
+//@   invariant "range coverage" lenlo: len(ret) >= len(existing) && len(ret) >= idx
+//@   invariant "range coverage" lenhi: len(ret) == max(len(existing), idx)
+//@   invariant "range coverage" merged: forall k int :: 0 <= k && k < len(ret) ==> ret[k] == mergedAt(existing, coverage, idx, k)
+//@   ensures length [C27]: len(result) == max(len(existing), len(coverage))
+//@   ensures pointwise [C27]: forall k int :: 0 <= k && k < len(result) ==> result[k] == mergedAt(existing, coverage, len(coverage), k)
+//
+//@ spec at(s []LineCoverage, k int) LineCoverage = ite(0 <= k && k < len(s), s[k], 0)
+//@ spec mergedAt(a []LineCoverage, b []LineCoverage, n int, k int) LineCoverage = ite(k < n, max(at(a, k), at(b, k)), at(a, k))
+//
+//@ lemma merge_commutative [C27]: forall x int, y int :: max(x, y) == max(y, x)
+//@ lemma merge_associative [C27]: forall x int, y int, z int :: max(max(x, y), z) == max(x, max(y, z))
+//@ lemma merge_idempotent [C27]: forall x int :: max(x, x) == x
+//@ lemma merge_best [C27]: forall x int, y int :: max(x, y) >= x && max(x, y) >= y && (max(x, y) == x || max(x, y) == y)
